@@ -20,11 +20,7 @@ one() {
   if ! (cd $d/repo && go build ./... >/dev/null 2>&1); then
     echo "{\"seed\":\"$id\",\"applies\":false,\"note\":\"does not build on the current tree\"}" > $OUT/$id.json; rm -rf $d; return
   fi
-  keys=""
-  for p in $(bin/ndndcheck -list); do
-    o=$(bin/ndndcheck -prop $p -tier quick -repo $d/repo -verif $d/verif 2>&1 | grep -E "^(VIOLATION|UNDECIDED): " | sed -E 's/^(VIOLATION|UNDECIDED): (C[0-9]+) ([^ ]+) .*/\2 \3/' | sort -u | tr '\n' ';')
-    keys="$keys$o"
-  done
+  keys=$(GOGC=off GOMEMLIMIT=4GiB bin/ndndcheck -sweep all -repo $d/repo -verif $d/verif 2>&1 | grep -E "^(VIOLATION|UNDECIDED): " | sed -E 's/^(VIOLATION|UNDECIDED): (C[0-9]+|ALL) ([^ ]+) .*/\2 \3/' | sort -u | tr '\n' ';')
   python3 - "$id" "$keys" > $OUT/$id.json <<'PY'
 import json,sys
 print(json.dumps({"seed":sys.argv[1],"applies":True,"reported_by":[k for k in sys.argv[2].split(';') if k]}))
